@@ -28,6 +28,7 @@ import (
 
 	"verif/internal/corpus"
 	"verif/internal/ev"
+	"verif/internal/synthfont"
 	"verif/internal/textgen"
 )
 
@@ -42,6 +43,14 @@ type fontRef struct {
 }
 
 func (r fontRef) key() string { return fmt.Sprintf("%s#%d", r.File, r.Index) }
+
+// synthPrefix starts the File of a generated font: "synth:" + JSON of the synthfont.Spec.
+const synthPrefix = "synth:"
+
+func synthRef(sp synthfont.Spec) fontRef {
+	b, _ := json.Marshal(sp)
+	return fontRef{File: synthPrefix + string(b)}
+}
 
 type axis struct {
 	Tag           ot.Tag
@@ -126,8 +135,20 @@ func loadFont(ref fontRef) (*poolFont, error) {
 	if pf, ok := pool[ref.key()]; ok {
 		return pf, nil
 	}
-	faces, err := corpus.Faces(ref.File)
-	if err != nil {
+	var faces []*font.Face
+	var err error
+	if strings.HasPrefix(ref.File, synthPrefix) {
+		// a generated font (internal/synthfont): the Spec is the rest of the name, as JSON
+		var sp synthfont.Spec
+		if err = json.Unmarshal([]byte(strings.TrimPrefix(ref.File, synthPrefix)), &sp); err != nil {
+			return nil, fmt.Errorf("bad synthetic font name %q: %v", ref.File, err)
+		}
+		f, err := synthfont.Face(sp)
+		if err != nil {
+			return nil, err
+		}
+		faces = []*font.Face{f}
+	} else if faces, err = corpus.Faces(ref.File); err != nil {
 		return nil, fmt.Errorf("loading %s: %v", ref.File, err)
 	}
 	if ref.Index < 0 || ref.Index >= len(faces) {
@@ -135,7 +156,9 @@ func loadFont(ref fontRef) (*poolFont, error) {
 	}
 	pf := &poolFont{Ref: ref, Font: faces[ref.Index].Font, Shared: faces[ref.Index]}
 	// axes: the font package has no accessor, read fvar directly
-	if lds, err := corpus.Loaders(ref.File); err == nil && ref.Index < len(lds) {
+	if strings.HasPrefix(ref.File, synthPrefix) {
+		// no fvar in generated fonts
+	} else if lds, err := corpus.Loaders(ref.File); err == nil && ref.Index < len(lds) {
 		if raw, err := lds[ref.Index].RawTable(ot.MustNewTag("fvar")); err == nil {
 			if fv, _, err := tables.ParseFvar(raw); err == nil {
 				for _, a := range fv.FvarRecords.Axis {
